@@ -214,5 +214,18 @@ def check_C17(o, tier):
     prof.cleanup()
 
 
+def extra_C14(o, tier):
+    """C14 on legacy layouts: every generated layout is also opened by a read-only directory store and by a memory store
+    over the directory; the directory is snapshotted before and after (monitor C14.ro-open-changed)"""
+    prof = ingest_profile(o)
+    if prof is None:
+        return
+    check_profile(o, prof, "gen", {"VERIF_SEED": o.seed + 31, "VERIF_N": 300 if tier == "quick" else 6000, "VERIF_RO_PROBE": 1}, "ingest-ro",
+                  {"C14.ro-open-changed"}, nontrivial=lambda a, b: a.split(" ", 1)[0] in REQUESTS)
+    o.cov["rule"] = o.cov.get("rule", "") + (" | ingest-ro: generated legacy layouts (fallback tags to convert) opened read-only and under a "
+                                             "memory store, directory snapshot compared")
+    prof.cleanup()
+
+
 CHECKS = {"C17": check_C17}
 PROFILES = {"ingest": ingest_profile}
